@@ -90,3 +90,11 @@ func (t *Tape) Used() []int32 {
 // Draw is a pre-run decision (strategy, swarm configuration) taken by the
 // harness before the simulation starts.
 func (t *Tape) Draw(n int) int { return t.draw(n, nil) }
+
+// NewSearchTapePrefix is NewSearchTape with the first decisions fixed (used to
+// enumerate configuration cells while the rest of the run stays random).
+func NewSearchTapePrefix(seed uint64, prefix []int32) *Tape {
+	t := NewSearchTape(seed)
+	t.Vals = append(t.Vals, prefix...)
+	return t
+}
